@@ -118,6 +118,56 @@ Proof.
   congruence.
 Qed.
 
+(* ---------------- strings.Fields ---------------- *)
+Lemma sapp_assoc (a b c : string) : ((a ++ b) ++ c = a ++ (b ++ c))%string.
+Proof. induction a as [|x a IH]; cbn; [reflexivity | now rewrite IH]. Qed.
+Lemma sapp_nil_r (a : string) : (a ++ "" = a)%string.
+Proof. induction a as [|x a IH]; cbn; [reflexivity | now rewrite IH]. Qed.
+
+Lemma fields_tok t : forall cur rest, no_ws t = true -> fields_aux cur (t ++ rest) = fields_aux (cur ++ t) rest.
+Proof.
+  induction t as [|c t IH]; intros cur rest H; cbn in H |- *.
+  - now rewrite sapp_nil_r.
+  - apply andb_true_iff in H as [H1 H2]. apply negb_true_iff in H1. rewrite H1.
+    rewrite (IH _ rest H2), sapp_assoc. reflexivity.
+Qed.
+
+Lemma fields_ws_empty w : forall rest, all_ws w = true -> fields_aux "" (w ++ rest) = fields_aux "" rest.
+Proof.
+  induction w as [|c w IH]; intros rest H; cbn in H |- *; [reflexivity|].
+  apply andb_true_iff in H as [H1 H2]. rewrite H1. now apply IH.
+Qed.
+
+Lemma fields_ws_tok w cur rest : all_ws w = true -> w <> ""%string -> cur <> ""%string ->
+  fields_aux cur (w ++ rest) = cur :: fields_aux "" rest.
+Proof.
+  intros H Hw Hc. destruct w as [|c w]; [congruence|]. cbn in H |- *.
+  apply andb_true_iff in H as [H1 H2]. rewrite H1. destruct cur; [congruence|].
+  now rewrite (fields_ws_empty w rest H2).
+Qed.
+
+Lemma fields_render_aux pairs : Forall tok_ok (map fst pairs) -> seps_ok pairs ->
+  fields_aux "" (render pairs) = map fst pairs.
+Proof.
+  induction pairs as [|[t sep] r IH]; intros HT HS; [reflexivity|].
+  cbn [map fst] in HT. inversion HT as [|? ? [Ht Hne] HT']; subst.
+  cbn [seps_ok] in HS. destruct HS as (Hs & Hn & HS').
+  cbn [render map fst]. rewrite (fields_tok t "" _ Ht). cbn [append].
+  destruct r as [|p r'].
+  - cbn [render]. rewrite sapp_nil_r. destruct sep as [|c sep'].
+    + cbn. destruct t; [congruence | reflexivity].
+    + rewrite <- (sapp_nil_r (String c sep')). rewrite (fields_ws_tok _ t "" Hs ltac:(discriminate) Hne). reflexivity.
+  - rewrite (fields_ws_tok sep t _ Hs (Hn ltac:(discriminate)) Hne). f_equal. now apply IH.
+Qed.
+
+(* whatever white space separates (and surrounds) the arguments, Fields returns exactly the arguments *)
+Lemma fields_render_lemma : forall lead pairs, all_ws lead = true ->
+  Forall tok_ok (map fst pairs) -> seps_ok pairs ->
+  fields (lead ++ render pairs) = map fst pairs.
+Proof.
+  intros lead pairs HL HT HS. unfold fields. rewrite (fields_ws_empty lead _ HL). now apply fields_render_aux.
+Qed.
+
 Section Proofs.
   Variable pf : string -> option Z.
   Notation parse_kind := (parse_kind pf).
@@ -469,5 +519,20 @@ Section Proofs.
   Proof.
     intros s runs k es ND H. rewrite (history_lemma s runs None k es H). f_equal.
     unfold ConfigModel.effective. cbn [autogen]. now rewrite base_default_file.
+  Qed.
+  (* ---------------- the line text ---------------- *)
+  Lemma glue_args_lemma : forall line, glue_args line = arg_map (fields line).
+  Proof. reflexivity. Qed.
+
+  (* two line texts whose arguments (distinct keys) are the same up to order and separated by any white space *)
+  Lemma line_order_lemma : forall s f lead lead' pairs pairs',
+    all_ws lead = true -> all_ws lead' = true ->
+    Forall tok_ok (map fst pairs) -> Forall tok_ok (map fst pairs') -> seps_ok pairs -> seps_ok pairs' ->
+    NoDup (map fst (kvs (map fst pairs))) -> Permutation (map fst pairs) (map fst pairs') ->
+    line_config pf s f (lead ++ render pairs) = line_config pf s f (lead' ++ render pairs').
+  Proof.
+    intros s f lead lead' pairs pairs' L L' T T' S S' ND P. unfold line_config.
+    rewrite !glue_args_lemma, (fields_render_lemma lead pairs L T S), (fields_render_lemma lead' pairs' L' T' S').
+    now apply order_tokens_lemma.
   Qed.
 End Proofs.
